@@ -161,6 +161,17 @@ type outcome struct {
 	mutated string
 }
 
+// report forwards a mismatch, keeping at most a few (the shortest cases come first in the
+// result file anyway) per key so that one frequent discrepancy cannot crowd out the others.
+var perKey = map[string]int{}
+
+func report(res *vh.Result, m vh.Mismatch) {
+	perKey[m.Key+"/"+m.Kind]++
+	if perKey[m.Key+"/"+m.Kind] <= 4 {
+		res.Mismatch(m)
+	}
+}
+
 func evaluate(a vh.Args, res *vh.Result, cases []*tcase) {
 	if len(cases) == 0 {
 		return
@@ -202,7 +213,7 @@ func evaluate(a vh.Args, res *vh.Result, cases []*tcase) {
 			}
 		}
 		if o.mutated != "" {
-			res.Mismatch(vh.Mismatch{ID: fmt.Sprintf("%s-%d", c.op.name, i), Kind: "prop", Key: "operand-modified-" + c.op.name,
+			report(res, vh.Mismatch{ID: fmt.Sprintf("%s-%d", c.op.name, i), Kind: "prop", Key: "cap-below-announced-modifies-operand",
 				Detail: "an input operand that is not the output was modified: " + o.mutated, Case: c.canon(), PropFail: true,
 				What: "operands are values: an operation must not change its inputs"})
 		}
@@ -220,9 +231,9 @@ func evaluate(a vh.Args, res *vh.Result, cases []*tcase) {
 			if propDetail != "" {
 				m.Detail += " ; property: " + propDetail
 			}
-			res.Mismatch(m)
+			report(res, m)
 		case propDetail != "":
-			res.Mismatch(vh.Mismatch{ID: fmt.Sprintf("%s-%d", c.op.name, i), Kind: "prop", Key: key, Detail: propDetail, Case: c.canon(),
+			report(res, vh.Mismatch{ID: fmt.Sprintf("%s-%d", c.op.name, i), Kind: "prop", Key: key, Detail: propDetail, Case: c.canon(),
 				PropFail: true, What: "mathematical value of " + c.op.name + " (math/big oracle)"})
 		}
 	}
@@ -283,6 +294,14 @@ func main() {
 	evaluate(a, res, cases)
 	if !a.Search {
 		primeChecks(a, res, g)
+	}
+	var ks []string
+	for k := range perKey {
+		ks = append(ks, k)
+	}
+	sort.Strings(ks)
+	for _, k := range ks {
+		res.Note("mismatching cases %s: %d", k, perKey[k])
 	}
 	res.Write(a.Out)
 }
